@@ -39,8 +39,9 @@ Step ==
             ELSE Rej(e, "cache-changed")
        [] e.k = "disp" ->
             LET fl == [i \in 1 .. NA |-> e.r[17 + i] = 1]
-                args == <<e.b[1] + 256 * e.b[2], e.b[3] + 256 * e.b[4]>>
-                seen == <<e.r[14] + 256 * e.r[15], e.r[16] + 256 * e.r[17]>>
+                \* third argument: its value category (0 const lvalue, 1 lvalue, 2 rvalue) as passed by the caller / as bound by the functor
+                args == <<e.b[1] + 256 * e.b[2], e.b[3] + 256 * e.b[4], e.b[5] % 3>>
+                seen == <<e.r[14] + 256 * e.r[15], e.r[16] + 256 * e.r[17], e.scat>>
                 rv == e.r[10] + 256 * e.r[11] + 65536 * e.r[12]
             IN IF e.op = "Ldef" /\ ~D!DefaultListOK(e.list, e.best) THEN Rej(e, "default-list-not-best-first")
                ELSE IF e.r[13] = 0 /\ D!DispatchOutcomeOK(e.list, fl, e.r[1], e.r[2], args, seen, rv)
